@@ -141,25 +141,28 @@ example : WellFormed (.mk "" (some ⟨26, 4, [123], false, false, 0, 1, 5⟩) 0 
     okTree (.mk "" (some ⟨26, 4, [123], false, false, 0, 1, 5⟩) 0 .none .none
       [some (.mk "statements" none 0 .none .none [] [])] []) = false := by decide
 
-/-! ## The token channel: the lexer goroutine is gone at every return -/
+/-! ## The token channel: nothing of the parser is left at the return -/
 
 /-- measure of what is still to happen once the consumer has stopped parsing -/
 def todo (s : St) : Nat :=
   s.toSend + (if s.prod = .running then 1 else 0) + (if s.cons = .draining then 1 else 0)
 
-theorem step_inv (s s' : St) (e : Ev) (h : step true s e = some s')
-    (hi : s.cons = .returned → s.prod = .terminated) : s'.cons = .returned → s'.prod = .terminated := by
-  cases e <;> simp only [step] at h <;> (repeat' split at h) <;>
-    simp_all <;> (subst h; simp_all)
+/-- invariant of the synchronous drain: no helper ever exists, and a returned call means a terminated producer -/
+def SyncInv (s : St) : Prop := s.helper = false ∧ (s.cons = .returned → s.prod = .terminated)
 
-/-- **no_producer_left.** In the channel model WITH the deferred drain: for every number of tokens,
-    every interleaving and every point at which the parse function stops (any event sequence is
-    allowed, so the consumer may stop after any number of receives), whenever `ParseWithRuntime`
-    has returned the lexer goroutine has terminated. -/
+theorem step_inv (s s' : St) (e : Ev) (h : step .sync s e = some s') (hi : SyncInv s) : SyncInv s' := by
+  obtain ⟨hh, hr⟩ := hi
+  cases e <;> simp only [step] at h <;> (repeat' split at h) <;>
+    simp_all [SyncInv] <;> (subst h; simp_all)
+
+/-- **no_producer_left.** In the channel model of the code as it is (deferred SYNCHRONOUS drain): for every
+    number of tokens, every interleaving and every point at which the parse function stops (any event
+    sequence is allowed, so the consumer may stop after any number of receives), in every state in which
+    `ParseWithRuntime` has returned — in particular AT the return event — the lexer goroutine has
+    terminated and no other goroutine of the parser exists (`clean`). -/
 theorem no_producer_left (n : Nat) (es : List Ev) (s : St)
-    (h : exec true (init n) es = some s) (hr : s.cons = .returned) : s.prod = .terminated := by
-  have gen : ∀ (es : List Ev) (s0 s : St), (s0.cons = .returned → s0.prod = .terminated) →
-      exec true s0 es = some s → (s.cons = .returned → s.prod = .terminated) := by
+    (h : exec .sync (init n) es = some s) (hr : s.cons = .returned) : clean s = true := by
+  have gen : ∀ (es : List Ev) (s0 s : St), SyncInv s0 → exec .sync s0 es = some s → SyncInv s := by
     intro es
     induction es with
     | nil => intro s0 s hi h; simp [exec] at h; subst h; exact hi
@@ -169,32 +172,34 @@ theorem no_producer_left (n : Nat) (es : List Ev) (s : St)
       split at h
       · next s1 h1 => exact ih s1 s (step_inv s0 s1 e h1 hi) h
       · simp at h
-  exact gen es (init n) s (by simp [init]) h hr
+  have := gen es (init n) s (by simp [SyncInv, init]) h
+  simp [clean, this.1, this.2 hr]
 
-example : ∃ s, exec true (init 3) [.recv, .stop, .drainRecv, .drainRecv, .close, .drainEnd] = some s ∧
+example : ∃ s, exec .sync (init 3) [.recv, .stop, .drainRecv, .drainRecv, .close, .drainEnd] = some s ∧
     s.cons = .returned := by decide
 
 /-- **the call does return (progress).** As long as `ParseWithRuntime` has not returned, some goroutine
     can move: the drain never blocks for good. -/
-theorem drain_progress (s : St) (h : s.cons ≠ .returned) : canMove true s = true := by
-  obtain ⟨n, p, c⟩ := s
+theorem drain_progress (s : St) (h : s.cons ≠ .returned) : canMove .sync s = true := by
+  obtain ⟨n, p, c, hp⟩ := s
   cases c <;> cases p <;> cases n <;> simp_all [canMove, allEv, step]
 
-/-- **the call does return (bound).** Once the consumer is in the deferred drain, every schedule has at
-    most `toSend + 2` further steps (then `ParseWithRuntime` has returned and nothing is left to run). -/
-theorem drain_bounded (es : List Ev) (s s' : St) (hc : s.cons ≠ .parsing)
-    (h : exec true s es = some s') : es.length + todo s' ≤ todo s := by
+/-- **the call does return (bound).** Once the consumer is in the deferred drain (and no helper exists, which
+    is invariant), every schedule has at most `toSend + 2` further steps (then `ParseWithRuntime` has
+    returned and nothing is left to run). -/
+theorem drain_bounded (es : List Ev) (s s' : St) (hc : s.cons ≠ .parsing) (hh : s.helper = false)
+    (h : exec .sync s es = some s') : es.length + todo s' ≤ todo s := by
   induction es generalizing s with
   | nil => simp [exec] at h; subst h; simp
   | cons e es ih =>
     simp only [exec] at h
     split at h
     · next s1 h1 =>
-      have key : s1.cons ≠ .parsing ∧ todo s1 + 1 ≤ todo s := by
-        obtain ⟨n, p, c⟩ := s
+      have key : s1.cons ≠ .parsing ∧ s1.helper = false ∧ todo s1 + 1 ≤ todo s := by
+        obtain ⟨n, p, c, hp⟩ := s
         cases e <;> simp only [step] at h1 <;> (repeat' split at h1) <;>
           simp_all [todo] <;> (subst h1; simp_all <;> omega)
-      have := ih s1 key.1 h
+      have := ih s1 key.1 key.2.1 h
       simp only [List.length_cons]; omega
     · simp at h
 
@@ -202,7 +207,16 @@ theorem drain_bounded (es : List Ev) (s s' : St) (hc : s.cons ≠ .parsing)
     parser stops after the first — after which `ParseWithRuntime` has returned, the lexer goroutine is
     still running (blocked in its send) and nothing can ever move again: it is leaked for good. -/
 theorem without_drain_producer_left :
-    ∃ s, exec false (init 2) [.recv, .stop] = some s ∧ s.cons = .returned ∧ s.prod = .running ∧
-      canMove false s = false := by decide
+    ∃ s, exec .none (init 2) [.recv, .stop] = some s ∧ s.cons = .returned ∧ s.prod = .running ∧
+      clean s = false ∧ canMove .none s = false := by decide
+
+/-- **negative witness (asynchronous drain).** If `drain` hands the channel to a helper goroutine and
+    returns at once, the return event is enabled while the helper and the lexer goroutine are alive: two
+    tokens, the parser stops after the first — at the return both outlive the call (they do end later:
+    `helpRecv, close, helpEnd`, which is why a check that waits for the count to settle sees nothing). -/
+theorem async_drain_outlives_call :
+    ∃ s, exec .async (init 2) [.recv, .stop] = some s ∧ s.cons = .returned ∧ s.prod = .running ∧
+      s.helper = true ∧ clean s = false ∧
+      (∃ s', exec .async s [.helpRecv, .close, .helpEnd] = some s' ∧ clean s' = true) := by decide
 
 end Ecal.Props.C07
